@@ -1,5 +1,6 @@
 import SpoxModel.Lemmas.InlineHyg
 import SpoxModel.Lemmas.InlineTotal
+import SpoxModel.Lemmas.InlineSeq
 import SpoxModel.Generated.InlineFacts
 /-! Property theorems for C08 (only property-level statements and non-vacuity examples live here).
 
@@ -643,6 +644,256 @@ theorem converter_contract_id {V : Type} (sem : OpSem V) (lit : Lit → V) (g : 
   ⟨rfl, rfl, h1, h2, fun _ => rfl⟩
 
 /-! #### the decision of `adapt_inline`: which data it depends on -/
+
+/-! ### composition: any number of Inline nodes in one build scope (round 10) -/
+
+/-- **`inline_sem_scope_frame`**: `inline_sem_scope` with the full frame. Besides defining the result names as
+    `evalModel m vals` and leaving every visible name untouched, a successful `_Inline.to_onnx` only ever makes
+    names visible (the scope grows), and every value name that is NOT visible afterwards is still undefined:
+    whatever the emitted nodes write besides the result names is one of the names they reserved. This is what
+    lets the next node of the build start from the invariant the first one started from. -/
+theorem inline_sem_scope_frame {V : Type} (sem : OpSem V) (lit : Lit → V)
+    (hc : ∀ l, sem (constOp l) [] [] = some [some (lit l)])
+    (hid : ∀ v : V, sem identityOp [some v] [] = some [some v])
+    (g : Graph) (c : Ctx) (em : Emitted) (vals : List V) (E : Env V) (outs : List (Option V))
+    (hem : toOnnx c (normalise g) = .ok em)
+    (hin : g.inputs.Nodup) (hin0 : "" ∉ g.inputs) (hout : g.outputs.Nodup) (hout0 : "" ∉ g.outputs)
+    (hA : ∀ x ∈ Node.assignedL g.nodes, x ∉ g.inputs)
+    (hal : c.argNames.length = g.inputs.length) (hrl : c.resNames.length = g.outputs.length)
+    (hrn : c.resNames.Nodup) (hu0 : "" ∉ c.var.used)
+    (hau : ∀ a ∈ c.argNames, a ∈ c.var.used)
+    (hru : ∀ r ∈ c.resNames, r ∈ c.var.used ∧ r ∉ c.argNames)
+    (hlen : g.inputs.length = vals.length)
+    (hE : ∀ i (h : i < c.argNames.length) (h' : i < vals.length), E.get c.argNames[i] = some vals[i])
+    (hEf : ∀ n, n ∉ c.var.used → E n = none) (hEr : ∀ r ∈ c.resNames, E r = none)
+    (hev : evalModel sem lit g vals = some outs) :
+    ∃ E', evalNodes sem lit em.nodes E = some E' ∧ c.resNames.map E'.get = outs ∧
+      (∀ n ∈ c.var.used, n ∉ c.resNames → E' n = E n) ∧
+      (∀ n ∈ c.var.used, n ∈ em.var.used) ∧ "" ∉ em.var.used ∧
+      (∀ n, n ∉ em.var.used → E' n = none) := by
+  obtain ⟨E', e1, e2, e3⟩ := inline_sem_scope sem lit hc hid g c em vals E outs hem hin hin0 hout hout0 hA hal hrl
+    hrn hu0 hau hru hlen hE hEf hEr hev
+  obtain ⟨tbl, ntbl, h1, _, hnodes⟩ := toOnnx_parts c g em hem
+  obtain ⟨r1, r2, r3, r4⟩ := rename_injective _ _ _ _ _ h1
+  refine ⟨E', e1, e2, e3, r3, assign_no_empty _ _ _ _ _ h1 hu0, ?_⟩
+  intro n hn
+  by_cases h0 : n = ""
+  · subst h0
+    rw [evalNodes_empty sem lit _ _ _ e1]
+    exact hEf "" hu0
+  · have hnc : n ∉ c.var.used := fun h => hn (r3 n h)
+    have ht : TblOk c.var.used ((normalise g).valueReqs.filter fun n =>
+        !(g.inputs.contains n) && !(g.outputs.contains n)) tbl :=
+      ⟨r1, fun a ha hane => ⟨(r2 a ha hane).1, (r2 a ha hane).2.1⟩, r4⟩
+    have hfr : n ∉ Node.outsL em.nodes := by
+      rw [hnodes, outsL_append, outsL_renameL]
+      intro hm
+      rcases List.mem_append.mp hm with hm | hm
+      · obtain ⟨x, hx, hxe⟩ := List.mem_map.mp hm
+        have hxS : x ∈ (normalise g).valueReqs := by
+          obtain ⟨inputs, inits, nodes, outputs, vi⟩ := g
+          simp only [normalise, Graph.valueReqs, List.mem_append]
+          exact Or.inl (Or.inl (Or.inr (outsL_sub_valueReqsL _ x hx)))
+        cases kind_of g.inputs g.outputs c.argNames c.resNames c.var.used _ tbl ht hal hrl hin0 hout0 x hxS with
+        | arg _ hi e => rw [e] at hxe; exact hnc (hxe ▸ hau _ (List.getElem_mem hi))
+        | res _ _ hi e => rw [e] at hxe; exact hnc (hxe ▸ (hru _ (List.getElem_mem hi)).1)
+        | fresh hi ho hne _ _ =>
+          have hρ : rho g.inputs g.outputs c.argNames c.resNames tbl x = tblGet tbl x := by
+            simp [rho, hi, ho]
+          have hm' : x ∈ (normalise g).valueReqs.filter fun n =>
+              !(g.inputs.contains n) && !(g.outputs.contains n) := by
+            simp [List.mem_filter, hxS, hi, ho]
+          rw [hρ] at hxe
+          exact hn (hxe ▸ (r2 x hm' hne).2.2)
+        | empty _ e => rw [e] at hxe; exact h0 hxe.symm
+      · exact hnc ((hru _ (outsL_passThrough _ _ _ _ n hm)).1)
+    rw [evalNodes_frame sem lit _ _ _ e1 n hfr]
+    exact hEf n hnc
+
+/-- **`inline_compose`** (the clause "however many times and in whatever composition", by induction over the
+    Inline nodes of a build): let `sites` be ANY list of Inline nodes - the same model repeated, different models,
+    a node fed with the results of earlier ones (chained) or with the same arguments (shared) - emitted one after
+    the other in ONE scope (`toOnnxSeq`: every `to_onnx` starts in the name spaces the previous one left). Let `U`
+    be value names of the build, all visible from the start, among them every argument and result name; result
+    names of different nodes are disjoint (SSA). If no `to_onnx` raises, then in every outer environment `E` that
+    defines no hidden name and none of the result names, the concatenated node list evaluates, and on `U` its
+    final environment is exactly that of the ABSTRACT program `specSeq` - each site applies the function of its
+    model (`evalModel`) to the current values of its argument names and binds its result names. No internal name
+    of one inlined model can influence another, whatever the internal names are; the hidden names stay hidden. -/
+theorem inline_compose {V : Type} (sem : OpSem V) (lit : Lit → V)
+    (hc : ∀ l, sem (constOp l) [] [] = some [some (lit l)])
+    (hid : ∀ v : V, sem identityOp [some v] [] = some [some v])
+    (U : List String) (sites : List Site) :
+    ∀ (v n : Space) (nodes : List Node) (v' n' : Space) (E S Es : Env V),
+      toOnnxSeq sites v n = .ok (nodes, v', n') →
+      (∀ x ∈ U, x ∈ v.used) → "" ∉ v.used →
+      (∀ s ∈ sites, s.Valid U) →
+      sites.Pairwise (fun s t => ∀ r ∈ s.resNames, r ∉ t.resNames) →
+      (∀ x ∈ U, E x = S x) → (∀ x, x ∉ v.used → E x = none) →
+      (∀ s ∈ sites, ∀ r ∈ s.resNames, E r = none) →
+      specSeq sem lit sites S = some Es →
+      ∃ E', evalNodes sem lit nodes E = some E' ∧ (∀ x ∈ U, E' x = Es x) ∧
+        (∀ x ∈ v.used, x ∈ v'.used) ∧ (∀ x, x ∉ v'.used → E' x = none) := by
+  induction sites with
+  | nil =>
+    intro v n nodes v' n' E S Es h _ _ _ _ hES hEf _ hsp
+    simp only [toOnnxSeq, Except.ok.injEq, Prod.mk.injEq] at h
+    obtain ⟨rfl, rfl, rfl⟩ := h
+    simp only [specSeq, Option.some.injEq] at hsp
+    subst hsp
+    exact ⟨E, rfl, hES, fun _ h => h, hEf⟩
+  | cons s ss ih =>
+    intro v n nodes v' n' E S Es h hU hu0 hval hpw hES hEf hEr hsp
+    have hs := hval s List.mem_cons_self
+    obtain ⟨hpw1, hpw2⟩ := List.pairwise_cons.mp hpw
+    -- the emission of the first site and of the rest
+    simp only [toOnnxSeq] at h
+    cases hem : toOnnx (s.ctx v n) (normalise s.g) with
+    | error e => simp [hem] at h
+    | ok em =>
+      simp only [hem] at h
+      cases hrest : toOnnxSeq ss em.var em.node with
+      | error e => simp [hrest] at h
+      | ok r =>
+        obtain ⟨ns, v2, n2⟩ := r
+        simp only [hrest, Except.ok.injEq, Prod.mk.injEq] at h
+        obtain ⟨rfl, rfl, rfl⟩ := h
+        -- the abstract step
+        simp only [specSeq] at hsp
+        cases hvals : allSome (s.argNames.map S.get) with
+        | none => simp [hvals] at hsp
+        | some vals =>
+          simp only [hvals] at hsp
+          cases hev : evalModel sem lit s.g vals with
+          | none => simp [hev] at hsp
+          | some outs =>
+            simp only [hev] at hsp
+            have hget : ∀ x ∈ U, E.get x = S.get x := by
+              intro x hx; unfold Env.get; rw [hES x hx]
+            have hmap : s.argNames.map E.get = vals.map some := by
+              rw [← allSome_eq _ _ hvals]
+              exact List.map_congr_left (fun a ha => hget a (hs.hau a ha))
+            have hlenA : s.argNames.length = vals.length := by
+              have := congrArg List.length hmap
+              simpa using this
+            have hE : ∀ i (h : i < s.argNames.length) (h' : i < vals.length),
+                E.get s.argNames[i] = some vals[i] := by
+              intro i h1 h2
+              have : (s.argNames.map E.get)[i]'(by simpa using h1) = (vals.map some)[i]'(by simpa using h2) := by
+                simp only [hmap]
+              simpa using this
+            obtain ⟨E1, e1, e2, e3, e4, e5, e6⟩ := inline_sem_scope_frame sem lit hc hid s.g (s.ctx v n) em vals E
+              outs hem hs.hin hs.hin0 hs.hout hs.hout0 hs.hA hs.hal hs.hrl hs.hrn hu0
+              (fun a ha => hU a (hs.hau a ha)) (fun r hr => ⟨hU r (hs.hru r hr).1, (hs.hru r hr).2⟩)
+              (by rw [← hs.hal]; exact hlenA) hE hEf (hEr s List.mem_cons_self) hev
+            have hres0 : "" ∉ s.resNames := fun h => hu0 (hU _ (hs.hru _ h).1)
+            have e2 : s.resNames.map E1.get = outs := e2
+            have e3 : ∀ x ∈ v.used, x ∉ s.resNames → E1 x = E x := e3
+            have e4 : ∀ x ∈ v.used, x ∈ em.var.used := e4
+            have hol : s.resNames.length = outs.length := by
+              have := congrArg List.length e2
+              simpa using this
+            have hSmap : s.resNames.map (S.setMany s.resNames outs).get = outs := by
+              apply List.ext_getElem
+              · simpa using hol
+              · intro i h1 h2
+                simp only [List.getElem_map]
+                exact setMany_get_idx S s.resNames outs hs.hrn hol hres0 i (by simpa using h1) h2
+            have hES1 : ∀ x ∈ U, E1 x = (S.setMany s.resNames outs) x := by
+              intro x hx
+              have hx0 : x ≠ "" := fun e => hu0 (e ▸ hU x hx)
+              by_cases hxr : x ∈ s.resNames
+              · have := List.map_inj_left.mp (e2.trans hSmap.symm) x hxr
+                unfold Env.get at this
+                simpa [hx0] using this
+              · rw [e3 x (hU x hx) hxr, setMany_frame _ _ _ _ hxr]
+                exact hES x hx
+            obtain ⟨E2, f1, f2, f3, f4⟩ := ih em.var em.node ns v2 n2 E1 (S.setMany s.resNames outs) Es hrest
+              (fun x hx => e4 x (hU x hx)) e5 (fun t ht => hval t (List.mem_cons_of_mem _ ht)) hpw2
+              hES1 e6
+              (fun t ht r hr => by
+                have hrU := ((hval t (List.mem_cons_of_mem _ ht)).hru r hr).1
+                rw [e3 r (hU r hrU) (fun hrs => hpw1 t ht r hrs hr)]
+                exact hEr t (List.mem_cons_of_mem _ ht) r hr)
+              hsp
+            refine ⟨E2, ?_, f2, fun x hx => f3 x (e4 x hx), f4⟩
+            rw [evalNodes_append, e1]
+            exact f1
+
+/-- non-vacuity of `inline_compose`: the same one-node model (`y = Neg x`, internal name `t`) inlined twice,
+    the second call chained on the first; both emissions succeed in one scope, under different prefixes -/
+example :
+    let m : Graph := .mk ["x"] [] [.mk "" ⟨"", "Neg", "", none⟩ ["x"] ["t"] [],
+                                   .mk "" ⟨"", "Neg", "", none⟩ ["t"] ["y"] []] ["y"] []
+    ((toOnnxSeq [⟨m, "Inline_0", ["a"], ["b"]⟩, ⟨m, "Inline_1", ["b"], ["c"]⟩]
+        ⟨["a", "b", "c"], []⟩ ⟨["Inline_0", "Inline_1"], []⟩).toOption.map
+      fun r => (r.1.map fun nd => (nd.ins, nd.outs), r.2.1.used)) =
+      some ([(["a"], ["Inline_0__t"]), (["Inline_0__t"], ["b"]), (["b"], ["Inline_1__t"]), (["Inline_1__t"], ["c"])],
+            ["Inline_1__t", "Inline_0__t", "a", "b", "c"]) := by decide
+
+
+/-- a successful `_Inline.to_onnx` of node `k` keeps both name spaces free of every other family `k'__`
+    incomparable with `k__` -/
+theorem toOnnx_keeps_prefixFree (c : Ctx) (g : Graph) (em : Emitted) (k' : String)
+    (hem : toOnnx c (normalise g) = .ok em)
+    (hinc : incomp (k' ++ "__") (c.nodeName ++ "__") = true)
+    (hv : c.var.prefixFree c.nodeName = true) (hn : c.node.prefixFree c.nodeName = true)
+    (hv' : c.var.prefixFree k' = true) (hn' : c.node.prefixFree k' = true) :
+    em.var.prefixFree k' = true ∧ em.node.prefixFree k' = true := by
+  obtain ⟨tbl, ntbl, h1, h2, _⟩ := toOnnx_parts c g em hem
+  exact ⟨assign_keeps_prefixFree _ _ hinc _ _ hv hv' _ _ h1, assign_keeps_prefixFree _ _ hinc _ _ hn hn' _ _ h2⟩
+
+/-- **`toOnnxSeq_total`**: any number of Inline nodes whose prefix families `k__` are pairwise incomparable (true
+    of the build's `Inline_i` / `<body prefix>__Inline_i` names), emitted in a scope free of all these families:
+    no `to_onnx` of the sequence can raise - the names one node reserves never get in the way of a later one. -/
+theorem toOnnxSeq_total (sites : List Site) :
+    ∀ (v n : Space),
+      sites.Pairwise (fun s t => incomp (s.nodeName ++ "__") (t.nodeName ++ "__") = true) →
+      (∀ s ∈ sites, v.prefixFree s.nodeName = true ∧ n.prefixFree s.nodeName = true) →
+      ∃ r, toOnnxSeq sites v n = .ok r := by
+  induction sites with
+  | nil => intro v n _ _; exact ⟨_, rfl⟩
+  | cons s ss ih =>
+    intro v n hpw hfree
+    obtain ⟨hpw1, hpw2⟩ := List.pairwise_cons.mp hpw
+    obtain ⟨hv, hn⟩ := hfree s List.mem_cons_self
+    obtain ⟨em, hem⟩ := toOnnx_total (s.ctx v n) s.g hv hn
+    obtain ⟨r, hr⟩ := ih em.var em.node hpw2 (fun t ht =>
+      toOnnx_keeps_prefixFree (s.ctx v n) s.g em t.nodeName hem
+        (by rw [incomp_symm]; exact hpw1 t ht) hv hn
+        (hfree t (List.mem_cons_of_mem _ ht)).1 (hfree t (List.mem_cons_of_mem _ ht)).2)
+    refine ⟨(em.nodes ++ r.1, r.2.1, r.2.2), ?_⟩
+    simp only [toOnnxSeq, hem, hr]
+
+/-- **`inline_compose_total`**: `inline_compose` with "no `to_onnx` raises" discharged: for every list of Inline
+    nodes with pairwise incomparable prefix families in a scope free of them, the whole emission succeeds AND
+    refines the abstract program `specSeq` on the value names of the build. -/
+theorem inline_compose_total {V : Type} (sem : OpSem V) (lit : Lit → V)
+    (hc : ∀ l, sem (constOp l) [] [] = some [some (lit l)])
+    (hid : ∀ v : V, sem identityOp [some v] [] = some [some v])
+    (U : List String) (sites : List Site) (v n : Space) (E S Es : Env V)
+    (hpwn : sites.Pairwise (fun s t => incomp (s.nodeName ++ "__") (t.nodeName ++ "__") = true))
+    (hfree : ∀ s ∈ sites, v.prefixFree s.nodeName = true ∧ n.prefixFree s.nodeName = true)
+    (hU : ∀ x ∈ U, x ∈ v.used) (hu0 : "" ∉ v.used)
+    (hval : ∀ s ∈ sites, s.Valid U)
+    (hpw : sites.Pairwise (fun s t => ∀ r ∈ s.resNames, r ∉ t.resNames))
+    (hES : ∀ x ∈ U, E x = S x) (hEf : ∀ x, x ∉ v.used → E x = none)
+    (hEr : ∀ s ∈ sites, ∀ r ∈ s.resNames, E r = none)
+    (hsp : specSeq sem lit sites S = some Es) :
+    ∃ nodes v' n' E', toOnnxSeq sites v n = .ok (nodes, v', n') ∧
+      evalNodes sem lit nodes E = some E' ∧ (∀ x ∈ U, E' x = Es x) ∧
+      (∀ x, x ∉ v'.used → E' x = none) := by
+  obtain ⟨⟨nodes, v', n'⟩, hr⟩ := toOnnxSeq_total sites v n hpwn hfree
+  obtain ⟨E', h1, h2, _, h4⟩ := inline_compose sem lit hc hid U sites v n nodes v' n' E S Es hr hU hu0 hval hpw
+    hES hEf hEr hsp
+  exact ⟨nodes, v', n', E', hr, h1, h2, h4⟩
+
+/-- the build's Inline node names are pairwise incomparable as families; a nested name is not -/
+example : incomp ("Inline_0" ++ "__") ("Inline_1" ++ "__") = true ∧
+    incomp ("Inline_1" ++ "__") ("Inline_10" ++ "__") = true ∧
+    incomp ("Inline_0" ++ "__") ("If_0_then_branch__Inline_0" ++ "__") = true ∧
+    incomp ("Inline_0" ++ "__") ("Inline_0__Inline_0" ++ "__") = false := by decide
+
 
 theorem foldl_max_ge_init (vs : List Nat) (v : Nat) : v ≤ vs.foldl max v := by
   induction vs generalizing v with
